@@ -51,7 +51,9 @@ def gen(rng, idx, tier, seed):
             'nops': int(rng.integers(1, 7)),
             # every third program of plain files mixes in the functional
             # forms of core/_functions.py
-            'fn': bool(idx % 3 == 0 and 'core' in fs)}
+            'fn': bool(idx % 3 == 0 and 'core' in fs),
+            # the receiver is a file on disk (saved, then opened again)
+            'disk': bool(idx % 5 == 2)}
 
 
 def build(fs):
@@ -77,10 +79,29 @@ def unlimited_rule(before_dims, out, ioapi):
 
 
 def run(spec, res):
+    from .. import harness
+    with harness.casedir() as d, harness.handles() as h:
+        run_in(spec, res, d, h)
+
+
+def run_in(spec, res, d, h):
+    import os
     ops.OPTIONS['zipped'] = True
     f = build(spec['file'])
     ioapi = 'ioapi' in spec['file']
     res.facet('file:ioapi' if ioapi else 'file:core')
+    if spec.get('disk'):
+        import PseudoNetCDF as pnc
+        try:
+            path = os.path.join(d, 'src.nc')
+            h.keep(f.save(path, format='NETCDF4', verbose=0)).close()
+            f = h.keep(pnc.pncopen(path, format='ioapi' if ioapi
+                                   else 'netcdf'))
+            res.facet('source:disk')
+        except Exception as e:
+            # saving is C07's business
+            res.note('disk-source-unavailable:%s' % type(e).__name__)
+            f = build(spec['file'])
     bad = snapshot.wellformed(f)
     res.hook('constructor.eval')
     res.ev(digest(['ctor', spec['file']]), len(list(f.variables.keys())) > 0,
